@@ -24,6 +24,7 @@ from engine.dom_elem import Dim, VTensor, ivar, sym_tensor
 from engine.optable_torch import INF
 from engine.runner import case
 from engine.values import FALSE, NONE, TRUE, PyRaise, Undecided, VBool, VDict, VFunc, VList, VNum, VObj, VStr, VTuple
+from contracts.stubs import Stub
 
 CM = "gpytorch.constraints.constraints"
 KINDS = ["Interval", "GreaterThan", "Positive", "LessThan"]
@@ -629,3 +630,70 @@ def _instances_with_prior(cname, prop):
         return f()
     except TypeError:
         return None
+
+
+# ------------------------------------------------------------------ rejected assignments leave the parameter alone --------------------
+@case("C17", clause="initialize_rejects_without_writing", expand=lambda ix: [(kind,) for kind in ("tensor", "float")], replay=lambda *a: replay_reject(*a),
+      functions=["gpytorch.module.Module.initialize", "gpytorch.module.Module.constraint_for_parameter_name"])
+def initialize_rejects_without_writing(c, kind):
+    """Module.initialize(raw_p=v) with an enforced constraint whose check_raw(v) is the callee contract (an arbitrary verdict): if the verdict is 'inside', the
+    parameter cell holds v afterwards (same Parameter object); if it is 'outside', RuntimeError is raised and the parameter still holds its previous values --
+    a rejected assignment must not be observable afterwards ('after any sequence of assignments ... reads back inside its bounds')"""
+    it, ctx = c.it, c.ctx
+    d = c.size("d")
+    ci = it.index.get_class("gpytorch.module.Module")
+    o = VObj(ci, label="m")
+    p = sym_tensor("raw_param", [d.t])
+    p.meta["is_parameter"] = True
+    old = p.frozen()
+    verdict = c.ctx.fresh_bool("check_raw_verdict") if hasattr(c.ctx, "fresh_bool") else z3.Bool("check_raw_verdict")
+    seen = []
+    cons = Stub("constraint", attrs={"enforced": TRUE}, methods={"check_raw": lambda v: (seen.append(v), VBool(verdict))[1]}, isa=("Interval", "Module"))
+    o.fields.update({"_parameters": VDict({"raw_p": p}), "_buffers": VDict(), "_modules": VDict({"raw_p_constraint": cons}), "_constraints": VDict({"raw_p_constraint": cons}),
+                     "_priors": VDict(), "_added_loss_terms": VDict(), "_strict_init": TRUE, "_load_strict_shapes": TRUE, "training": TRUE})
+    if kind == "tensor":
+        V = sym_tensor("value", [d.t])
+    else:
+        V = VNum(c.real("value").t)
+    exc = c.raises(lambda: it.call(ctx, c.getattr(o, "initialize"), [], {"raw_p": V}))
+    k = ivar("k")
+    c.assume(z3.And(k >= 0, k < d.t))
+    c.prove("initialize.verdict_asked_of_the_constraint_on_the_new_value", z3.BoolVal(len(seen) == 1 and (seen[0] is V or kind == "float")))
+    now = o.fields["_parameters"].d.get("raw_p")
+    c.prove("initialize.parameter_cell_kept", z3.BoolVal(now is p))
+    if exc is None:
+        c.cover("accepted")
+        c.prove("initialize.accepted_only_when_the_verdict_is_inside", verdict)
+        want = V.at([k]) if kind == "tensor" else V.t
+        c.prove("initialize.accepted_value_is_stored", now.at_dims([k]) == want)
+    else:
+        c.cover("rejected")
+        c.prove("initialize.rejected_only_when_the_verdict_is_outside_with_RuntimeError", z3.And(z3.Not(verdict), z3.BoolVal(exc.clsname == "RuntimeError")))
+        c.prove("initialize.rejected_assignment_leaves_the_parameter_unchanged", now.at_dims([k]) == old.at([k]))
+
+
+def replay_reject(model, params, clause, info):
+    """real modules: an out-of-bounds assignment through the public setter / initialize must raise and leave the raw parameter bit-identical"""
+    import torch
+    import gpytorch
+    (kind,) = params
+    bad = []
+    lik = gpytorch.likelihoods.GaussianLikelihood(noise_constraint=gpytorch.constraints.Interval(0.1, 2.0)).double()
+    ker = gpytorch.kernels.RBFKernel(ard_num_dims=2, lengthscale_constraint=gpytorch.constraints.GreaterThan(0.5)).double()
+    lik.noise = 0.7
+    ker.lengthscale = torch.tensor([[0.9, 1.4]], dtype=torch.double)
+    for name, mod, raw, badval in (("noise", lik, lambda: lik.noise_covar.raw_noise, 5.0), ("lengthscale", ker, lambda: ker.raw_lengthscale, 0.01)):
+        before = raw().detach().clone()
+        val = torch.full_like(getattr(mod, name), badval) if kind == "tensor" else badval
+        try:
+            setattr(mod, name, val)
+            bad.append(f"{name} = {badval} (outside the constraint) was accepted")
+        except RuntimeError:
+            pass
+        after = raw().detach()
+        if not torch.equal(before, after):
+            bad.append(f"rejected {name} = {badval}: raw parameter changed from {before.flatten().tolist()} to {after.flatten().tolist()}")
+        if not torch.isfinite(getattr(mod, name)).all():
+            bad.append(f"{name} reads back non-finite after the rejected assignment")
+    return {"violates": bool(bad), "detail": "; ".join(bad)[:700] or "rejected assignments leave the raw parameters bit-identical on the real code",
+            "entry": {"module": "contracts.C17_constraints", "function": "replay_reject", "args": [model, list(params), clause, info]}}
